@@ -59,6 +59,7 @@ Inductive item :=
 | TryImport (m : name) (alias : option name) (caught : N)   (* try import m [as alias] catch _: print "<caught>" *)
 | Export (k : name) (e : expr)                     (* export k = e *)
 | Assign (k : name) (e : expr)                     (* k = e *)
+| AssignOp (k : name) (e : expr)                   (* k += e   (numbers; `+` on strings is outside the model) *)
 | Show (e : expr)                                  (* print the value of e *)
 | Fail                                             (* throw *)
 | DefineTest (t : name) (b : fbody)                (* @test t = || ... *)
@@ -226,6 +227,9 @@ Definition eval (C : cfg) (s : st) (f : frame) (e : expr) : res value :=
       end
   end.
 
+(* the value of an id used as an operand (compile_load_id) *)
+Definition load_id (C : cfg) (s : st) (f : frame) (k : name) : res value := eval C s f (EVar k).
+
 (* NonLocals::add_wildcard_import: skipped when the same instance is already there *)
 Definition same_instance (a b : value) : bool :=
   match a, b with
@@ -324,6 +328,25 @@ Section Exec.
         match eval C s f e with
         | Ok v => Some (Ok (set_local k v f), maybe_export force k v s)
         | Err e => Some (Err e, s)
+        end
+    | AssignOp k e =>
+        (* compile_compound_assignment_op: the lhs is the local's register, or a temporary loaded with
+           LoadNonLocal; the result is written to that register; under export_top_level_ids the result is
+           exported under k in both cases *)
+        match load_id C s f k with
+        | Err x => Some (Err x, s)
+        | Ok lhs =>
+            match eval C s f e with
+            | Err x => Some (Err x, s)
+            | Ok rhs =>
+                match lhs, rhs with
+                | VInt a, VInt b =>
+                    let v := VInt (a + b) in
+                    let f1 := match al_get k (locals f) with Some _ => set_local k v f | None => f end in
+                    Some (Ok f1, maybe_export force k v s)
+                | _, _ => Some (Err EType, s)
+                end
+            end
         end
     | Export k e =>
         match eval C s f e with
